@@ -78,6 +78,7 @@ type BaseStore struct {
 	muJoining sync.Mutex
 	muUpdate  sync.Mutex
 	muStatus  sync.Mutex
+	muWrite   sync.Mutex
 	sortFn    ipfslog.SortFn
 	logger    *zap.Logger
 	tracer    trace.Tracer
@@ -865,8 +866,14 @@ func (b *BaseStore) AddOperation(ctx context.Context, op operation.Operation, on
 
 	oplog := b.OpLog()
 
+	// appending and persisting the new local head is one critical section:
+	// with concurrent writers the head persisted last must be the newest one,
+	// or the newer acknowledged entry cannot be found after a restart
+	b.muWrite.Lock()
+
 	e, err := oplog.Append(ctx, data, &ipfslog.AppendOptions{PointerCount: b.referenceCount})
 	if err != nil {
+		b.muWrite.Unlock()
 		return nil, fmt.Errorf("unable to append data on log: %w", err)
 	}
 	verifhook.Point("write.after-append", b, e)
@@ -875,10 +882,12 @@ func (b *BaseStore) AddOperation(ctx context.Context, op operation.Operation, on
 
 	marshaledEntry, err := json.Marshal([]ipfslog.Entry{e})
 	if err != nil {
+		b.muWrite.Unlock()
 		return nil, fmt.Errorf("unable to marshal entry: %w", err)
 	}
 
 	err = b.Cache().Put(ctx, datastore.NewKey("_localHeads"), marshaledEntry)
+	b.muWrite.Unlock()
 	if err != nil {
 		return nil, fmt.Errorf("unable to add data to cache: %w", err)
 	}
